@@ -4,6 +4,7 @@ import (
 	"encoding/json"
 	"fmt"
 	"math"
+	"unicode/utf8"
 
 	"verif/internal/wk"
 )
@@ -368,6 +369,12 @@ func (c *ctx) decorate(s *Shape, env *Env) {
 				p.Default = jsonText(jsonable(raw))
 				if c.cfg.GoodDefaults && lossyInJSON(raw) {
 					p.Default = nil // integers beyond 2^53 do not survive the JSON text of a default
+				}
+				if sv, isStr := raw.(string); isStr && p.T.Kind == KString && bareDefaultOK(sv) && r.Chance(40) {
+					// a string property's default may be written bare, without the JSON quotes (the way a YAML author
+					// writes it) - including the empty text for the empty string
+					bare := sv
+					p.Default = &bare
 				}
 			}
 		}
@@ -945,4 +952,18 @@ func GenOneOf(r *wk.Rand, cfg Cfg) *Shape {
 	s := c.genOneOf(2)
 	fixOneOfAmbiguity(s, &Env{})
 	return s
+}
+
+// bareDefaultOK: can this string be written as a bare default text (no quotes, no escapes, and not itself valid JSON,
+// which would be read as JSON)?
+func bareDefaultOK(v string) bool {
+	if json.Valid([]byte(v)) {
+		return false
+	}
+	for _, ch := range v {
+		if ch == '"' || ch == '\\' || ch < 0x20 || ch == 0x7f || ch == utf8.RuneError {
+			return false
+		}
+	}
+	return utf8.ValidString(v)
 }
